@@ -7,6 +7,7 @@ d=$1; wt=$2
 patch=$d/patch.diff; [ -f $d/patch.ported.diff ] && patch=$d/patch.ported.diff
 demo_dir=$(python3 -c "import json,sys;print(json.load(open('$d/meta.json'))['demo_dir'])")
 demo_cmd=$(python3 -c "import json,sys;print(json.load(open('$d/meta.json'))['demo_cmd'])")
+case "$demo_cmd" in cp\ *\&\&*) demo_cmd="${demo_cmd#*&& }";; esac
 demo_dir=${demo_dir%/}; demo_dir=${demo_dir#./}; [ -z "$demo_dir" ] && demo_dir=.
 cd $wt || exit 9
 git checkout -q -- . ; git clean -fdq
